@@ -192,7 +192,8 @@ def r3_context_pairing(ctx, F):
         ctx.violation("stack-restore-args", end.loc(rk[0][2]["ln"]), "Stack::restore_context(depth, next_overflow_addr) receives fields %s" % got2)
     # depth check dominates both restores and rejects depth > 16
     STS = F.const(r"^miden_core::stack::STACK_TOP_SIZE$")
-    chk = [c for c in cmp_branches(end) if c["kind"] == "bin" and c["op"] == ">" and end.const_of(c["b"]) == STS]
+    # `depth > 16` or the mirrored `16 < depth`; the stored branch target is the one taken when the comparison holds
+    chk = [c for c in cmp_branches(end) if c["kind"] == "bin" and ((c["op"] == ">" and end.const_of(c["b"]) == STS) or (c["op"] == "<" and end.const_of(c["a"]) == STS))]
     ok = bool(chk) and all(end.dominates(chk[0]["block"], b) for b in (rs[0][0], rk[0][0]))
     if ok:
         reach = end.reachable_blocks(chk[0]["true"])
@@ -373,9 +374,10 @@ def r6_address_arithmetic(ctx, F):
         guarded = False
         for c in cmp_branches(fn):
             if c["kind"] == "bin" and c["op"] in ("<", "<=", ">", ">=") and fn.dominates(c["block"], bi):
-                x = resolve_copy(fn, c["a"])
-                if x.get("l") == a.get("l"):
-                    guarded = True
+                for side in ("a", "b"):         # either way round: `x < bound` or `bound > x`
+                    x = resolve_copy(fn, c[side])
+                    if x.get("l") == a.get("l"):
+                        guarded = True
         # or guarded by every caller: the operand is a parameter and each call site is dominated by get_valid_address(addr + k)
         if not guarded and a.get("l") is not None and 1 <= a["l"] <= fn.d["argc"]:
             argno = a["l"] - 1
